@@ -452,3 +452,99 @@ func anyDescend(d *Deps, fns []*ssa.Function) bool {
 	}
 	return false
 }
+
+// ParamWrite is one way a function may write the memory its k-th parameter (a slice) points at.
+type ParamWrite struct {
+	Instr ssa.Instruction
+	What  string
+}
+
+// ParamWrites lists the writes through parameter k of f: element stores, copy / library mutators with the
+// parameter (or a slice, phi or conversion of it) as destination, append with it as the first operand (append
+// fills spare capacity of the caller's array in place), and calls that hand it to a function which writes it
+// (isOutput says which parameters of which repository functions are meant to be written).  Interface calls are
+// resolved by the mutators table only.
+func ParamWrites(f *ssa.Function, k int, isOutput func(g *ssa.Function, idx int) bool, depth int) []ParamWrite {
+	if f == nil || k >= len(f.Params) || len(f.Blocks) == 0 || depth > 4 {
+		return nil
+	}
+	p := f.Params[k]
+	memo := map[ssa.Value]bool{}
+	var derived func(v ssa.Value) bool
+	derived = func(v ssa.Value) bool {
+		if d, ok := memo[v]; ok {
+			return d
+		}
+		memo[v] = false
+		res := false
+		switch x := v.(type) {
+		case *ssa.Parameter:
+			res = x == p
+		case *ssa.Slice:
+			// a three-index slice with max == high caps the capacity: append reallocates, but stores still alias
+			res = derived(x.X)
+		case *ssa.IndexAddr:
+			res = derived(x.X)
+		case *ssa.ChangeType:
+			res = derived(x.X)
+		case *ssa.Phi:
+			for _, e := range x.Edges {
+				if derived(e) {
+					res = true
+				}
+			}
+		case *ssa.Call:
+			// the result of append(p, …) still points into p's array when the capacity sufficed
+			if CalleeName(x.Common()) == "builtin:append" && len(x.Call.Args) > 0 {
+				res = derived(x.Call.Args[0])
+			}
+		}
+		memo[v] = res
+		return res
+	}
+	capped := func(v ssa.Value) bool {
+		sl, ok := v.(*ssa.Slice)
+		return ok && sl.Max != nil && sl.High != nil && sl.Max == sl.High
+	}
+	var out []ParamWrite
+	for _, b := range f.Blocks {
+		for _, in := range b.Instrs {
+			switch x := in.(type) {
+			case *ssa.Store:
+				if derived(x.Addr) {
+					out = append(out, ParamWrite{in, "element store"})
+				}
+			case ssa.CallInstruction:
+				name := CalleeName(x.Common())
+				args := CallArgs(x.Common())
+				if name == "builtin:append" && len(args) > 0 && derived(args[0]) && !capped(args[0]) {
+					out = append(out, ParamWrite{in, "append to it (fills the spare capacity of the caller's array in place)"})
+					continue
+				}
+				if idx, ok := libMutators[name]; ok && idx < len(args) && derived(args[idx]) {
+					out = append(out, ParamWrite{in, "destination of " + name[strings.LastIndex(name, "/")+1:]})
+					continue
+				}
+				if strings.HasPrefix(name, "invoke:(crypto/cipher.Block).") && len(args) > 1 && derived(args[1]) {
+					out = append(out, ParamWrite{in, "destination of " + strings.TrimPrefix(name, "invoke:")})
+					continue
+				}
+				if g := StaticCallee(x.Common()); g != nil && len(g.Blocks) > 0 {
+					for i, a := range args {
+						if !derived(a) || i >= len(g.Params) {
+							continue
+						}
+						if isOutput != nil && isOutput(g, i) {
+							out = append(out, ParamWrite{in, "handed to " + g.Name() + " as the buffer it fills"})
+							continue
+						}
+						if len(ParamWrites(g, i, isOutput, depth+1)) > 0 {
+							out = append(out, ParamWrite{in, "handed to " + g.Name() + ", which writes it"})
+						}
+					}
+				}
+			}
+		}
+	}
+	return out
+}
